@@ -167,10 +167,12 @@ def interactive_job(job):
             return res
         for a in hist:
             s.post(a)
-            m.do(a)
+            for part in a.split("+"):
+                m.do(part)
         want = m.obs()
         # barrier: the event loop handles POSTs in order; wait until the state probe agrees with the model
-        x, ok = s.wait_state(lambda x: x["position"] == want["position"] and [y["text"] for y in x["selected"]] == want["selected"], 10.0)
+        # (the ORDER of the selection is judged on the printed output below, not here)
+        x, ok = s.wait_state(lambda x: x["position"] == want["position"] and sorted(y["text"] for y in x["selected"]) == sorted(want["selected"]), 10.0)
         if not ok:
             res["inconclusive"] = "selection state differs from the model (C09's business): %r" % (hist,)
             return res
@@ -346,7 +348,7 @@ def run(c, replay):
                 if wn and an == "{2}-{1}":
                     continue
                 cfgs.append(dict(multi=multi, print0=print0, pq=pq, expect=expect, an=an, wn=wn))
-    acts = ["up", "down", "toggle", "select-all", "toggle-all", "deselect"]
+    acts = ["up", "down", "toggle", "up+toggle", "select-all", "toggle-all", "deselect"]
     depth = c.pick(2, 3)
     hists = [()] + [h for d in range(1, depth + 1) for h in itertools.product(acts, repeat=d)]
     jobs = []
